@@ -734,6 +734,7 @@ class Translator:
         if k == "macro":
             if e[1] == "vec_rep":
                 x, tx = self.ex(e[2][0], env, B); n, tn = self.ex(e[2][1], env, B)
+                if tx in ("lit", "usize") and tn in ("usize", "lit"): return ("(repeat %s %s)" % (x, n), "vecn")
                 if tx != "elem" or tn not in ("usize", "lit"): self.bad("vec![x; n] with x : %s, n : %s" % (tx, tn))
                 return ("(repeat %s %s)" % (x, n), "vec")
             if e[1] == "vec":
@@ -743,6 +744,9 @@ class Translator:
             self.bad("macro `%s!` in expression position" % e[1])
         if k == "struct":
             s = self.tb.STRUCTS.get(e[1])
+            if s is None and e[1] == "Self":
+                cands = [v for v in self.tb.STRUCTS.values() if v[2] == self.selfty]
+                s = cands[0] if len(cands) == 1 else None
             if s is None: self.bad("struct literal `%s { .. }`" % e[1])
             fields, fmt, ty = s
             got = dict(e[2])
@@ -1100,6 +1104,9 @@ class Translator:
         B = []
         t, tv = self.ex(e, env, B)
         if pat[0] == "pvar":
+            ov = self.spec.get("locals", {}).get(pat[1])
+            if ov is not None and tv in LISTS and ov in LISTS and t.startswith("(@nil"):
+                t = "(@nil %s)" % gtype(LISTS[ov]); tv = ov
             if tv == "lit":
                 dty = rust_type(ty, self.selfty) if ty else "usize"
                 t = self.lit(t, "lit", dty); tv = dty
